@@ -63,6 +63,17 @@ def generate(seed, tier):
                     [{"t": "soft", "e": gp.bool_expr(own0, 1)} for _ in range(st.prog.randint(2, 3))])})
     else:
         soft_f = None
+    if st.prog.random() < 0.5:
+        # a random-size list: the library pre-extends its storage before solving, which is
+        # temporary state that a failed call must take back
+        hi = st.prog.randint(2, 6)
+        tcls["fields"].append({"n": "rz", "k": "l", "w": 3, "s": False, "r": True, "rsz": True, "sz": 0})
+        body = [progs.EXPR(progs.BIN(st.prog.choice(["<", "<=", "!="]),
+                                     {"t": "f", "p": ["rz", progs._loopvar(0, True)]},
+                                     progs.LIT(st.prog.randint(1, 7))))]
+        tcls["blocks"].append({"n": "zrsz", "stmts": [
+            progs.EXPR(progs.BIN("<=", {"t": "size", "p": ["rz"]}, progs.LIT(hi))),
+            {"t": "foreach", "p": ["rz"], "it": True, "idx": True, "body": body}]})
     has_dyn = any(b.get("dyn") for b in tcls["blocks"])
     rng = st.ops
     n_parties = rng.choice([1, 2, 2, 3])
@@ -170,6 +181,7 @@ def run_world(rec, tagn, fault=None, skip=None, record_sites=False):
             op["inline"] = list(op.get("inline") or []) + contradiction_for(pt.env.prog, pt.cname)
         s0 = w.site_no
         n_before = len(w.parties)
+        lens0 = _list_lengths(w.tree(op["p"])) if op["op"] in ("randomize", "rw") else None
         out = w.apply(op)
         if len(w.parties) > n_before:
             # every party gets an explicit random state right after creation
@@ -186,6 +198,14 @@ def run_world(rec, tagn, fault=None, skip=None, record_sites=False):
             post = {"op": oi, "outcome": out, "idle": randworld.global_state(),
                     "residue": randworld.model_residue(pobj) if pobj is not None else [],
                     "unsat": unsat_here}
+            if out["st"] == "solvefail" and lens0 is not None:
+                # nothing was solved: storage the library added to give the solver room is
+                # temporary state of the call, the lists must be as long as before
+                lens1 = _list_lengths(w.tree(op["p"]))
+                if lens1 != lens0:
+                    post["residue"] = list(post["residue"]) + [
+                        "list %s: length %s before the failed call, %s after" % (k_, lens0.get(k_), v_)
+                        for k_, v_ in sorted(lens1.items()) if lens0.get(k_) != v_]
             posts.append(post)
             _normalise(w, nrng, rec)
             trace.append((oi, "FAULTED"))
@@ -196,11 +216,32 @@ def run_world(rec, tagn, fault=None, skip=None, record_sites=False):
             "sim_ms": int(w.clock.elapsed * 1000)}
 
 
+def _list_lengths(tree, base="", out=None):
+    out = {} if out is None else out
+    for k_, v_ in tree.items():
+        if isinstance(v_, list):
+            out[base + k_] = len(v_)
+            for i_, e_ in enumerate(v_):
+                if isinstance(e_, dict):
+                    _list_lengths(e_, "%s%s[%d]." % (base, k_, i_), out)
+        elif isinstance(v_, dict):
+            _list_lengths(v_, base + k_ + ".", out)
+    return out
+
+
 def _normalise(w, nrng, rec):
     """normalising prefix: assign every field of every party, re-seed"""
     from .. import builder
     from vsc.model.rand_state import RandState
     for pi, pt in enumerate(w.parties):
+        # the length of a random-size list is user-controllable state too: empty it (clear() is
+        # the public way), so that both worlds assign the same number of normalising values
+        for f in pt.env.prog.fields(pt.cname):
+            if f.get("rsz"):
+                try:
+                    getattr(pt.obj, f["n"]).clear()
+                except Exception:
+                    pass
         try:
             tree = w.tree(pi)
         except Exception:
